@@ -64,6 +64,15 @@ NODES = {
     "let_ml": ("{A}\n{N}", "let   qz=(\n          1 ,\n   2 ) ;"),
     "arm_ml": ("match  v  {{\n{A}\n{N}\n_=>{{ }} }}", "1   =>   {\n          qz ( 1 ,2 )\n   }"),
     "closurestmt": ("{A}\n{N}", "let   qz=| a ,b |  a+b ;"),
+    "closurearg_if": ("f( {A} {N} ) ;", "| x |  if x  {{  1  }}  else  {{  qz  }}".replace("{{", "{").replace("}}", "}")),
+    "closurearg_block": ("f( {A} {N} ) ;", "| x |  {{  qz ( x ,1 )  }}".replace("{{", "{").replace("}}", "}")),
+    "closurearg_loop": ("x.g( {A} {N} ) ;", "| y |  loop  {{  qz ( y ) ;  }}".replace("{{", "{").replace("}}", "}")),
+    "callarg": ("foo ( {A} {N} , 2 ) ;", "[ 1 ,qz ]"),
+    "lastarg": ("foo ( 2 , {A} {N} ) ;", "bar ( 1 ,qz )"),
+    "tupleelem": ("let  t=( {A} {N} , 2 ) ;", "[ 1 ,qz ]"),
+    "arrayelem": ("let  t=[ {A} {N} , [ 2 ,3 ] ] ;", "[ 1 ,qz ]"),
+    "binop": ("let  t=1+ {A} {N} ;", "( qz  *  2 )"),
+    "retval": ("return  {A} {N} ;", "[ 1 ,qz ]"),
 }
 
 
